@@ -195,7 +195,7 @@ _MKT = ("Bounded exhaustive TLC model checking of spec/Market.tla with the REAL 
 _SEC = ("System-level conformance: guided random schedules of USER messages only (pre-commit, prove-commit, non-interactive commit, Window PoSt with skipped sets, fault / recovery declarations, terminations, extensions over several partitions and deadlines with claim declarations, compaction, DataCap allocations and ProveReplicaUpdates3 with verified pieces, withdrawals, block rewards, consensus-fault reports, disputes, fault-plan injections; every sixth trace is goal-directed towards a rare configuration: multi-deadline replica update / extension with claim drops, termination backlog with compaction, fee debt meeting a fault time-out) plus the per-epoch cron are run on the real miner, power, reward, cron and market actors under a scaled-down policy (4 deadlines x 6 epochs, 2 KiB sectors, partition size 2), miners created through the real power actor; after every message and tick the full projected state (every partition bitfield, memo, expiration queue, claim, cron queue, balance) is validated by TLC against the Layer-P formulas of spec/SectorsP.tla written from the protocol. ")
 LEVEL_TEXT = {
     "C18": "spec/EVM.tla is total by construction (every byte string has exactly one outcome: stop/return, revert, or one of undefined / invalid / underflow / overflow / bad jump destination / memory beyond the 32-bit limit / memory cap / read-only violation); TLC checks totality (no deadlock), the stack bound, 'pc never inside push data', 'jump destinations = JUMPDEST bytes at instruction boundaries' and 'no storage write in a static frame' over every byte string up to a small length over reduced alphabets, in normal and static context (MC_EVM). Conformance: arbitrary byte strings (uniformly random, instruction-sequence grammar, mutated from valid generated programs) are deployed through the real EAM as runtime code, run as init code (and the contracts they create are then called), and run beneath STATICCALL at nesting depth 1-3 through CALL / DELEGATECALL / STATICCALL proxy chains (the VM, like the repository's reference test_vm, does not police events in read-only mode: the actor must refuse by itself), a stack-limit edge family (1024 one-word pushes followed by ONE instruction of every kind), with code biased towards SSTORE, TSTORE, LOG0-4, CREATE, CREATE2, SELFDESTRUCT and CALL-with-value. TLC validates every recorded interpreter step: stack depth <= 1024, memory size within the bound, every taken JUMP/JUMPI lands one past a byte that the specification's jump-destination analysis accepts; at the end of every run: no panic, no unexplained exhaustion of the step budget, the outcome class is a defined one and equals the specification's whenever the program stays inside the specified instruction set (the static frames are re-executed by the specification with static = TRUE: a state-changing instruction must end the frame); after every static call the whole state tree (code, state root and balance of every actor, the set of actors) and the event list are unchanged.",
-    "C01": _SEC + "C01 formulas: TotalFilConstant, LedgerDelta (every actor's balance change equals the effective transfers of the invocation tree, failed messages change nothing), MinerSolvent, MarketSolvent (Market suite), paych Solvent (Paych suite), RewardNeverFails, MarketNoStranding (what the market holds beyond the escrow balances never changes through a market operation; also an action property of the model-checked Market module); also under injected failures of tolerated nested sends.",
+    "C01": _SEC + "C01 formulas: TotalFilConstant, LedgerDelta (every actor's balance change equals the effective transfers of the invocation tree, failed messages change nothing), MinerSolvent, MinerSolventRecomputed (the same inequality over the deposits of the outstanding pre-commitments, the vesting table and the pledge of the live sectors instead of the miner's own totals), MarketSolvent (Market suite), paych Solvent (Paych suite), RewardNeverFails, MarketNoStranding (what the market holds beyond the escrow balances never changes through a market operation; also an action property of the model-checked Market module); also under injected failures of tolerated nested sends.",
     "C02": _SEC + "C02 formulas: PowerIsActive (claim = sum over proven, non-faulty, non-terminated sectors recomputed from partition bitfields), TotalsOK (consensus-minimum rule), ProvenOnlyByPoSt / RecoveredOnlyByPoSt (a sector enters the active set only through an accepted Window PoSt naming its partition; a faulty one only if it was declared recovering), SkippedFaulted, MissedPoStFaulted (every deadline that closes during a tick leaves the live sectors of its unproven partitions faulty or terminated). Power suite: bounded exhaustive TLC model checking of spec/Power.tla, the storage power actor structured like the code (add_to_claim's threshold-crossing cases, the miner_above_min_power_count / CONSENSUS_MINER_MIN_MINERS regime switch of current_total_power, claim deletion by the tick), every interleaving of CreateMiner, UpdateClaimedPower with deltas crossing the threshold in both directions, cron enrolments and ticks with failing callbacks by miners with and without a claim and by non-miners, with a transition tour; conformance: tour, simulation behaviours (real regime constant 4) and guided random schedules on the real power actor with real miner actors (power updates sent as those miners), CurrentTotalPower called after every step; formulas TotalsRule (what would be frozen = sum over claims >= minimum if at least MinMiners reach it, else over all claims; committed totals; above-minimum count), StoredTotals, ReportRule (the reported values are the frozen ones and equal the rule right after every tick), ClaimsNonNeg, ClaimsChangeOnlyByOwner.",
     "C03": _SEC + "C03 formulas: PledgeExact, DepositsExact, VestExact, NonNegLedgers, NetPledgeTotal (literal; known finding F1 is reported when only the exact adjusted identity holds), NetPledgeNonNeg, PledgeTotalNeverBlocks. Power suite (same model and traces): PledgeTotalNonNeg (the network pledge total and its frozen copy are never negative: an update that would make it negative aborts), PledgeFrame (the total changes only by an accepted UpdatePledgeTotal of a miner holding a claim, by exactly its delta).",
     "C04": _SEC + "C04 formulas: SetsNest, OnePartition, PartMemos, DlMemos, EarlyDls, QueueOK, DlQueueCovers (the deadline-level expiration queue names every partition at every epoch of that partition's own queue), AllocCovers, NumbersFresh (the allocated set only grows; new numbers were unallocated).",
